@@ -38,7 +38,7 @@ class Script(System):
     def execute(self):
         m = self.model
         env = m.environment
-        o = {"picks": [], "order": [], "moves": [], "churn": []}
+        o = {"picks": [], "order": [], "moves": [], "churn": [], "near": []}
         if "pick" in self.mix:
             for args, kw in (((), {}), ((CompA,), {}), ((), {"tag": 1}), ((CompA,), {"tag": 0})):
                 a = env.get_random_agent(*args, **kw)
@@ -46,7 +46,7 @@ class Script(System):
         if "shuffle" in self.mix:
             o["order"] = [a.id for a in env.shuffle()]
             o["order"] += ["|"] + [a.id for a in env.shuffle(tag=1)]
-        if "move" in self.mix and m.kind == "grid":
+        if "move" in self.mix and m.kind in ("grid", "tgrid"):
             # pick a random neighbouring cell: the list the world hands out is shuffled in place with the model's generator
             a = env.get_random_agent()
             if a is not None:
@@ -61,6 +61,13 @@ class Script(System):
                 dx, dy = m.random.randint(-2, 2), m.random.randint(-2, 2)
                 env.move(a, dx, dy)
                 o["moves"].append([a.id] + _pos(a))
+        if "near" in self.mix and m.kind != "plain":
+            # who is around me (two cells / units each way - across the border of the small world, too)?  One of them is drawn.
+            for a in env.shuffle()[:3]:
+                p = a[PositionComponent]
+                found = env.get_agents_at(p.x, p.y, leeway=2)
+                b = m.random.choice(found) if found else None
+                o["near"].append([a.id, "None" if b is None else b.id] + [x.id for x in found])
         if "churn" in self.mix:
             if m.random.random() < 0.4 and len(env) > 1:
                 a = env.get_random_agent()
@@ -104,10 +111,10 @@ class StochModel(Model):
     def __init__(self, seed=1, kind="plain", n=5, mix="pick,shuffle,move,churn"):
         super().__init__(seed=seed)
         self.kind = kind
-        if kind == "grid":
-            self.set_environment(GridWorld(self, 5, 4))
-        elif kind == "space":
-            self.set_environment(SpaceWorld(self, 6.0, 4.0))
+        if kind in ("grid", "tgrid"):
+            self.set_environment(GridWorld(self, 5, 4, wrap_env=(kind == "tgrid")))
+        elif kind in ("space", "tspace"):
+            self.set_environment(SpaceWorld(self, 6.0, 4.0, wrap_env=(kind == "tspace")))
         for i in range(n):
             self.add_one("a%d" % i, tag=i % 2, comp=(i % 3 != 0))
         self.systems.add_system(Hook(self))
@@ -122,7 +129,7 @@ class StochModel(Model):
             a.add_component(CompA(a, self))
         if self.kind == "plain":
             self.environment.add_agent(a)
-        elif self.kind == "grid":
+        elif self.kind in ("grid", "tgrid"):
             self.environment.add_agent(a, r.randint(0, 4), r.randint(0, 3))
         else:
             self.environment.add_agent(a, r.randint(0, 24) / 4.0, r.randint(0, 16) / 4.0)
@@ -277,6 +284,11 @@ def run_program(prog):
 CONFIGS = [{"kind": k, "n": n, "mix": mix}
            for k in ("plain", "grid", "space")
            for n, mix in ((5, "pick,shuffle,move,churn"), (3, "pick,shuffle"), (6, "shuffle,move"), (4, "pick,churn"))]
+# toroidal worlds and positional queries around the agents (the window usually crosses the border of these small worlds)
+SPATIAL = [{"kind": k, "n": n, "mix": mix}
+           for k in ("tgrid", "tspace", "grid", "space")
+           for n, mix in ((6, "near,move"), (5, "pick,near,move,churn"))]
+CONFIGS = CONFIGS + SPATIAL
 
 
 def schedule_from_walk(walk):
